@@ -28,3 +28,124 @@ pub fn main(args: &util::Args) {
     }
     let _ = std::fs::remove_dir_all(&dir);
 }
+
+/// `gv stages <file.gom>`: time the front-end stages separately (used to localise blow-ups)
+pub fn stages(args: &util::Args) {
+    use std::time::Instant;
+    let file = &args.rest[0];
+    let src = std::fs::read_to_string(file).expect("read");
+    let path = std::path::Path::new(file);
+    let t = Instant::now();
+    let res = parser::parse(path, &src);
+    println!("parse   {:?} diagnostics={}", t.elapsed(), res.diagnostics().len());
+    let root = parser::syntax::MySyntaxNode::new_root(res.green_node.clone());
+    let cst = <cst::cst::File as cst::cst::CstNode>::cast(root).expect("cast");
+    let t = Instant::now();
+    let lower = ast::lower::lower(cst);
+    println!("lower   {:?}", t.elapsed());
+    let Some(file_ast) = lower.into_ast() else { return };
+    let t = Instant::now();
+    let (hir, table, _d) = compiler::hir::lower_to_hir(file_ast);
+    println!("hir     {:?}", t.elapsed());
+    let t = Instant::now();
+    let (tast, genv, d) = compiler::typer::check_file(hir, table);
+    println!("typer   {:?} diagnostics={}", t.elapsed(), d.len());
+    if args.rest.iter().any(|a| a == "--tast") {
+        println!("{}", tast.to_pretty(&genv, 120));
+    }
+    if args.rest.iter().any(|a| a == "--core") {
+        let gensym = compiler::env::Gensym::new();
+        let mut cd = diagnostics::Diagnostics::new();
+        let core = compiler::compile_match::compile_file(&genv, &gensym, &mut cd, &tast);
+        println!("{}", core.to_pretty(&genv, 120));
+        if args.rest.iter().any(|a| a == "--all") {
+            let (mono, monoenv) = compiler::mono::mono(genv, core);
+            println!("== mono\n{}", mono.to_pretty(&monoenv, 120));
+            let (lifted, liftenv) = compiler::lift::lambda_lift(monoenv, &gensym, mono);
+            println!("== lift\n{}", lifted.to_pretty(&liftenv, 120));
+            let (anf, anfenv) = compiler::anf::anf_file(liftenv, &gensym, lifted);
+            println!("== anf\n{}\n{:#?}", anf.to_pretty(&anfenv, 120), anf.toplevels.last());
+        }
+    }
+}
+
+/// `gv golden`: compare the stage dumps of every corpus program with the recorded golden files
+/// (`main.gom.{tast,core,mono,anf,go}`) — what `tests::test_cases` asserts before it needs a Go
+/// toolchain. Used to validate `fix:` commits that touch the typer or a pass.
+pub fn golden(_args: &util::Args) {
+    let mut bad = 0;
+    let mut n = 0;
+    for d in util::corpus_pipeline_dirs() {
+        let p = d.join("main.gom");
+        let Ok(src) = std::fs::read_to_string(&p) else { continue };
+        let r = std::panic::catch_unwind(std::panic::AssertUnwindSafe(|| compiler::pipeline::pipeline::compile(&p, &src)));
+        let Ok(Ok(c)) = r else {
+            println!("{}: does not compile", d.display());
+            bad += 1;
+            continue;
+        };
+        n += 1;
+        let dumps = [
+            ("tast", c.tast.to_pretty(&c.genv, 120)),
+            ("core", c.core.to_pretty(&c.genv, 120)),
+            ("mono", c.mono.to_pretty(&c.monoenv, 120)),
+            ("anf", c.anf.to_pretty(&c.anfenv, 120)),
+            ("go", c.go.to_pretty(&c.goenv, 120)),
+        ];
+        for (ext, text) in dumps {
+            let g = d.join(format!("main.gom.{}", ext));
+            if let Ok(want) = std::fs::read_to_string(&g) {
+                if want != text {
+                    println!("{}: .{} differs from the golden file", d.file_name().unwrap().to_string_lossy(), ext);
+                    bad += 1;
+                }
+            }
+        }
+    }
+    println!("golden: {} programs compiled, {} differences", n, bad);
+    if bad > 0 {
+        std::process::exit(1);
+    }
+}
+
+/// `gv hover <file.gom> <line> <col>`: run the three editor queries at one position
+pub fn hover(args: &util::Args) {
+    let file = &args.rest[0];
+    let line: u32 = args.rest.get(1).and_then(|s| s.parse().ok()).unwrap_or(0);
+    let col: u32 = args.rest.get(2).and_then(|s| s.parse().ok()).unwrap_or(0);
+    let src = std::fs::read_to_string(file).expect("read");
+    let dir = util::scratch_dir("hover");
+    let path = dir.join("main.gom");
+    let t = std::time::Instant::now();
+    println!("hover: {:?} ({:?})", compiler::query::hover_type(&path, &src, line, col), t.elapsed());
+    let t = std::time::Instant::now();
+    println!("dot: {:?} ({:?})", compiler::query::dot_completions(&path, &src, line, col), t.elapsed());
+    let t = std::time::Instant::now();
+    println!("colon: {:?} ({:?})", compiler::query::colon_colon_completions(&path, &src, line, col), t.elapsed());
+    let _ = std::fs::remove_dir_all(&dir);
+}
+
+/// `gv shrink <file.gom> <text>`: minimise a program while `compile` still panics with a message
+/// containing `<text>`; prints the result
+pub fn shrink(args: &util::Args) {
+    util::quiet_panics();
+    let file = &args.rest[0];
+    let needle = args.rest.get(1).cloned().unwrap_or_default();
+    let src = std::fs::read_to_string(file).expect("read");
+    let dir = util::scratch_dir("shrink");
+    let mut pred = |cand: &str| matches!(util::compile_text(&dir, cand), Outcome::Panic(m) if m.contains(&needle));
+    if !pred(&src) {
+        println!("the input does not panic with a message containing {:?}", needle);
+        return;
+    }
+    let mut cur = src;
+    for _ in 0..4 {
+        let next = crate::crash::shrink_text(&cur, &mut pred, 4000);
+        if next.len() == cur.len() {
+            break;
+        }
+        cur = next;
+    }
+    println!("{}", cur);
+    let _ = std::fs::remove_dir_all(&dir);
+}
